@@ -1,4 +1,6 @@
 import Firebolt.Properties.C10
+import Firebolt.Generated.Source
+import Firebolt.Expected.Source
 /-!
 # C12 — Message wire fidelity and compaction-safe record keys
 -/
@@ -57,5 +59,15 @@ theorem compaction_safe (h1 h2 : List Wire) (w : Wire) (k : Bytes)
         exact ⟨w', by simpa using hw', by simpa [hk] using he⟩
       rw [hf] at this; cases this
     · simp [hk]
+
+
+/-! ### the functions this model was transcribed from are unchanged (regenerated from /repo on every run) -/
+theorem source_msSend : GeneratedSrc.msSend = ExpectedSrc.msSend := by rfl
+theorem source_msAck : GeneratedSrc.msAck = ExpectedSrc.msAck := by rfl
+theorem source_msProduceMessage : GeneratedSrc.msProduceMessage = ExpectedSrc.msProduceMessage := by rfl
+theorem source_msgUniqueKey : GeneratedSrc.msgUniqueKey = ExpectedSrc.msgUniqueKey := by rfl
+theorem source_tyWireMessage : GeneratedSrc.tyWireMessage = ExpectedSrc.tyWireMessage := by rfl
+theorem source_tyMessage : GeneratedSrc.tyMessage = ExpectedSrc.tyMessage := by rfl
+theorem source_mrProcessMessage : GeneratedSrc.mrProcessMessage = ExpectedSrc.mrProcessMessage := by rfl
 
 end Firebolt.C12
